@@ -27,7 +27,8 @@ Fixpoint uleb (fuel : nat) (x : N) : list N :=
   | O => [x mod 128]
   | S f => if x <? 128 then [x] else (x mod 128 + 128) :: uleb f (x / 128)
   end.
-Definition uleb128 (x : N) : list N := uleb (N.size_nat x) x.
+(** ten bytes: enough for every 64-bit quantity; run headers are below 2^32 *)
+Definition uleb128 (x : N) : list N := uleb 9 x.
 
 Definition value_bytes (w : nat) : nat := Nat.div (w + 7) 8.
 
